@@ -13,6 +13,7 @@ CONSTANT OpSet = {"Get", "GetActive", "Put", "Upsert", "Remove", "Peek"}
 CONSTANT FreePut = FALSE
 CONSTANT MaxOps = 2
 CONSTANT MaxSteps = 3
+CONSTANT SplitLoad = FALSE
 CONSTANT MaxUpd = 0
 CONSTANT Pool = 4
 CONSTANT SeqPrefix = 1
